@@ -158,7 +158,7 @@ def gen_hrs(rng, small=True, odd_ok=False, with_opts=True):
 
 
 # ------------------------------------------------------------------------------ MAX / ART
-def gen_max(rng, small=True, w8_only=True, with_opts=True):
+def gen_max(rng, small=True, w8_only=True, with_opts=True, geometry=None):
     mode = rng.choice(MAX_MODES)
     if not with_opts:
         w, rows, s, use_r, ign = 256, 192, 0, False, False
@@ -183,6 +183,10 @@ def gen_max(rng, small=True, w8_only=True, with_opts=True):
             s = rng.choice((65536, 65537, 70000, 100000))
         use_r = rng.random() < 0.4
         ign = rng.random() < 0.25
+    if geometry is not None:
+        # a width and a row count given by the caller, reachable only with -w and -r
+        w, rows = geometry
+        use_r = True
     rowb = (w + 7) // 8
     # the length field must satisfy W*rows//8 == size so that the header is accepted
     size = w * rows // 8
@@ -315,7 +319,9 @@ def gen_mge(rng, small=True):
 
 
 # ------------------------------------------------------------------------------ RAT
-def rat_stream(rng, pix, esc):
+def rat_stream(rng, pix, esc, escaped=0.03):
+    """`escaped`: share of the elements that could be literals but are written as a triple of
+    count 1 all the same (legal: a triple is always accepted; 1.0 is the longest stream there is)."""
     out = bytearray()
     ctrl = []
     i, n = 0, len(pix)
@@ -325,9 +331,11 @@ def rat_stream(rng, pix, esc):
         while j < n and pix[j] == pix[i] and j - i < 255:
             j += 1
         run = j - i
-        if run > 1 and rng.random() < split * 0.5:
+        if escaped > 0.03:
+            run = 1
+        elif run > 1 and rng.random() < split * 0.5:
             run = rng.randint(1, run)
-        if pix[i] == esc or run > 2 or (run > 1 and rng.random() < 0.5) or rng.random() < 0.03:
+        if pix[i] == esc or run > 2 or (run > 1 and rng.random() < 0.5) or rng.random() < escaped:
             ctrl.append(len(out))
             out += bytes([esc, run, pix[i]])
             i += run
@@ -352,6 +360,43 @@ def gen_rat(rng, small=True):
     smap.append((len(data) - 1, "trailer"))
     data += bytes(rng.getrandbits(8) for _ in range(junk))
     return Case("rat", [], data, smap, (320, 199), {"esc": esc, "junk": junk})
+
+
+def gen_longest(rng):
+    """The longest legal encodings: streams no encoder that merges runs would write, picture
+    data beyond what a 16-bit length field can announce.  A decoder must not assume a bound."""
+    k = rng.randrange(4)
+    if k == 0:
+        # MAX picture data beyond 64 KiB: only -r reaches it
+        w, nbytes = rng.choice(((256, 65536), (256, 65568), (512, 65600), (1024, 66560), (8, 65540),
+                                (2048, 76800), (256, 131104)))
+        return gen_max(rng, geometry=(w, nbytes // (w // 8)))
+    if k == 1:
+        # RAT: most or all elements written as triples of count 1 (up to 3 bytes per picture byte)
+        esc = rng.getrandbits(8)
+        pix = margins(rng, _pixels(rng, 199 * 160, rng.choice(("noise", "mixed"))), 160)
+        body, ctrl = rat_stream(rng, pix, esc, escaped=rng.choice((0.55, 0.7, 1.0, 1.0)))
+        hdr = bytes([esc, rng.randint(1, 255), rng.getrandbits(8)]) + _palette(rng)
+        smap = [(0, "flag"), (1, "flag"), (2, "flag")] + [(3 + i, "pal") for i in range(16)]
+        smap += [(19 + c, "ctrl") for c in ctrl] + [(19 + c + 1, "ctrl") for c in ctrl]
+        smap.append((19 + len(body) - 1, "trailer"))
+        return Case("rat", [], hdr + body, smap, (320, 199), {"esc": esc, "junk": 0, "longest": True})
+    if k == 2:
+        # MGE: every run of length one (two bytes per picture byte, 64001 bytes of packed data)
+        rgb = rng.random() < 0.6
+        hdr, smap = mge_header(rng, False, rgb)
+        pix = _pixels(rng, 32000, "noise")
+        body = bytearray()
+        for b in pix:
+            body += bytes((1, b))
+        body.append(0)
+        smap += [(51 + c, "ctrl") for c in range(0, 64000, 640)]
+        smap.append((51 + len(body) - 1, "trailer"))
+        return Case("mge", [], hdr + bytes(body), smap, (320, 200),
+                    {"raw": False, "rgb": rgb, "junk": 0, "longest": True})
+    # MAX picture data just below the 64 KiB mark
+    w = rng.choice((8, 256, 520))
+    return gen_max(rng, geometry=(w, 65535 // (w // 8)))
 
 
 # ------------------------------------------------------------------------------ CM3
